@@ -24,6 +24,9 @@ rule("C05.a", "every parameter that enters the level model as offset or coeffici
 rule("C05.e", "level band: upper minus lower right-hand side is exactly size, both last entries are end_level - start_level - "
               "inflow, in the plain and in the block variant", floor=4)
 rule("C05.g", "inside the block loop the global cumulative inflow is used only to build a block-relative copy", floor=1)
+rule("C05.k", "time blocks: a block boundary that coincides with the end of the storage's grid does not start a block (date_range includes "
+              "its end; 'last time point <= boundary' then is the last step, which would become a block of its own)", floor=1,
+     props=["C05", "C14"])
 rule("C05.h", "the holding-duration indicator multiplies -size (binary 0 => level <= 0), not the shifted upper bound", floor=1)
 
 LEVEL_PARAMS = {
@@ -111,7 +114,7 @@ class _Arm:
         return self
 
 
-@analysis("storage", ["C05.a", "C05.e", "C05.g", "C05.h"])
+@analysis("storage", ["C05.a", "C05.e", "C05.g", "C05.h", "C05.k"])
 def run(ctx):
     p = ctx.p
     sto = p.cls("Storage")
@@ -273,6 +276,37 @@ def run(ctx):
                ok_detail="global cumulative inflow only used to build a re-based block copy (%s)" % ", ".join(sorted(local_copies)))
     if n_loops == 0:
         ctx.ob("C05.g", setup, "block loop", None, "no loop filling diagonal blocks found (block variant rewritten?)")
+
+    # ================================================================= C05.k block boundaries
+    found_k = False
+    ff = ctx.flow(setup)
+    for loop in [s for s in au.walk_stmts(setup.body) if isinstance(s, ast.For) and isinstance(s.target, ast.Name)]:
+        it = ctx.resolve(setup, loop.iter, loop)
+        if not (isinstance(it, ast.Call) and au.method_name(it) == "date_range"):
+            continue
+        end = au.kwarg(it, "end")
+        if end is None or not au.U(end).endswith(".end"):
+            continue
+        lv = loop.target.id
+        cmps = [c for c in au.walk_local(loop) if isinstance(c, ast.Compare) and len(c.ops) == 1 and isinstance(c.ops[0], (ast.LtE, ast.GtE))
+                and any(isinstance(x, ast.Attribute) and x.attr == "timepoints" for x in au.walk_local(c)) and lv in au.names_in(c)]
+        if not cmps:
+            continue
+        found_k = True
+        incl = au.kwarg(it, "inclusive") or au.kwarg(it, "closed")
+        open_right = incl is not None and au.const_str(incl) == "left"
+        guarded = any(isinstance(s2, ast.If) and lv in au.names_in(s2.test) and any(isinstance(x, ast.Attribute) and x.attr == "end" for x in au.walk_local(s2.test))
+                      and any(isinstance(x, (ast.Break, ast.Continue)) for x in au.walk_stmts(s2.body)) and s2.lineno <= cmps[0].lineno
+                      for s2 in au.walk_stmts(loop.body))
+        ctx.ob("C05.k", setup, "block boundaries include the end of the grid", open_right or guarded,
+               "the block boundaries are date_range(..., end=%s), which contains the end date itself whenever the grid ends on a block "
+               "boundary (the normal case: daily blocks, grid ending at midnight); the start index of a block is the last time point <= "
+               "boundary, for the end date that is the last step of the grid - it becomes a one-step block: the level has to go from "
+               "start level to end level within that single step (start 0, end 5, rate 1: infeasible) and the step before it must already "
+               "end at the end level; under a split optimisation this happens at the end of every interval (78.01 unsplit vs 77.76 split "
+               "although nothing couples the intervals)" % au.short(end, 40), node=cmps[0])
+    if not found_k:
+        ctx.ob("C05.k", setup, "block boundaries", None, "the loop over block boundary dates was not found")
 
     # ================================================================= C05.h indicator rows
     msd_if = None
